@@ -98,6 +98,53 @@ func runC13(r *core.Run) {
 			return core.Outcome{Class: fmt.Sprint("len", len(p)), Nontrivial: len(p) > 0, Evals: 2}
 		})
 
+	core.Clause(r, "from2bit-result-is-private", core.Opts{Rule: "call histories for every packed byte b and every ordered pair (b, c) over 16 bytes: r := DNAFrom2Bit(nil, [b]); overwrite and append to r (also via DNAFrom2Bit(r[:0], [c])); then DNAFrom2Bit(nil, [b]) and the round trip of [b] must still be right; non-trivial = all"},
+		func(emit func(c13Packed) bool) {
+			for b := 0; b < 256; b++ {
+				emit(c13Packed{[]int{b}})
+			}
+			sel := []int{0x00, 0x1b, 0xe4, 0xff, 0x55, 0xaa, 0x01, 0x80, 0x7f, 0xfe, 0x10, 0x0f, 0xf0, 0x33, 0xcc, 0x99}
+			for _, b := range sel {
+				for _, c := range sel {
+					emit(c13Packed{[]int{b, c}})
+				}
+			}
+		},
+		func(c c13Packed) core.Outcome {
+			b := byte(c.Bytes[0])
+			want := ref.Unpack2Bit([]byte{b})
+			var fail string
+			p := catch(func() {
+				r1 := sequtil.DNAFrom2Bit(nil, []byte{b})
+				if !bytes.Equal(r1, want) {
+					fail = fmt.Sprintf("DNAFrom2Bit(nil, %x) = %q, want %q", b, r1, want)
+					return
+				}
+				if len(c.Bytes) > 1 {
+					sequtil.DNAFrom2Bit(r1[:0], []byte{byte(c.Bytes[1])}) // reuse the result as a buffer
+				}
+				for i := range r1 {
+					r1[i] = 'X'
+				}
+				_ = append(r1[:cap(r1)], 'Y')
+				r2 := sequtil.DNAFrom2Bit(nil, []byte{b})
+				if !bytes.Equal(r2, want) {
+					fail = fmt.Sprintf("after the caller modified an earlier result, DNAFrom2Bit(nil, %x) = %q, want %q: the result aliases internal state", b, r2, want)
+					return
+				}
+				if back := sequtil.DNATo2Bit(nil, r2); len(back) != 1 || back[0] != b {
+					fail = fmt.Sprintf("round trip of %x gives %x", b, back)
+				}
+			})
+			if p != "" {
+				return core.Failf("panic: %s", p)
+			}
+			if fail != "" {
+				return core.Failf("%s", fail)
+			}
+			return core.Outcome{Class: "ok", Nontrivial: true, Evals: 4}
+		})
+
 	core.Clause(r, "ntoi-iton-panic", core.Opts{Rule: "Ntoi on all 256 bytes (pos=-2), Iton on -3..6 (pos=-3, byte=value+3), and every byte at each position mod 4 of ACGTA: panics iff outside aAcCgGtT"},
 		func(emit func(c13Byte) bool) {
 			for b := 0; b < 256; b++ {
